@@ -529,6 +529,15 @@ type Contract struct {
 	GhostSet []GhostAssign
 	// GhostInit: ghost prologue of the unit
 	GhostInit []GhostAssign
+	// GhostArgs: instantiation of callee ghost parameters at call sites
+	GhostArgs []GhostArg
+}
+
+type GhostArg struct {
+	Callee  string
+	Ordinal string
+	Name    string
+	E       Expr
 }
 
 type GhostAssign struct {
@@ -890,6 +899,17 @@ func (cs *ContractSet) loadFile(path string) error {
 			} else {
 				cur.GhostInit = append(cur.GhostInit, ga)
 			}
+		case "ghostarg":
+			// ghostarg <callee> <ordinal> <name> = <expr>
+			if len(fields) < 6 || fields[4] != "=" {
+				return fail(i, "malformed ghostarg (want: ghostarg <callee> <n> <name> = <expr>)")
+			}
+			idx := strings.Index(body, " = ")
+			ge, err := ParseExpr(strings.TrimSpace(body[idx+3:]))
+			if err != nil {
+				return fail(i, "%v", err)
+			}
+			cur.GhostArgs = append(cur.GhostArgs, GhostArg{Callee: fields[1], Ordinal: fields[2], Name: fields[3], E: ge})
 		case "ghostparam":
 			// ghostparam <name> <go type>: universally quantified logical parameter
 			if len(fields) < 3 {
@@ -935,7 +955,7 @@ func (cs *ContractSet) loadFile(path string) error {
 			lastClause.Src += " " + body
 		}
 		if kw != "assigns" {
-			if _, isKw := map[string]bool{"props": true, "requires": true, "ensures": true, "alloc_bound": true, "site": true, "loop": true, "inline": true, "pure": true, "trusted": true, "noverify": true, "may_panic": true, "callback": true, "ghostparam": true, "implements": true, "cbinv": true, "ghostset": true, "ghostinit": true}[kw]; isKw {
+			if _, isKw := map[string]bool{"props": true, "requires": true, "ensures": true, "alloc_bound": true, "site": true, "loop": true, "inline": true, "pure": true, "trusted": true, "noverify": true, "may_panic": true, "callback": true, "ghostparam": true, "implements": true, "cbinv": true, "ghostset": true, "ghostinit": true, "ghostarg": true}[kw]; isKw {
 				inAssigns = false
 			}
 		}
